@@ -175,7 +175,9 @@ class Gen:
         return " ".join(["halt", m] + ps)
 
     def g_ehalt(self):
-        return "ehalt " + self.rng.choice("01")
+        r = self.rng
+        n = r.choice([0, 0, 0, 40, 250, 300, 1000])     # length of the message (0 = the harness' short default)
+        return "ehalt " + r.choice("01") + (f" {n}" if n else "")
 
     def g_temp(self):
         k = self.rng.choice(["bed", "hotend", "chamber"])
@@ -203,6 +205,9 @@ class Gen:
         if r.random() < 0.4:
             lo = [Fraction(r.randint(-24 * G, 0), G) for _ in range(3)]
             hi = [l + Fraction(r.randint(0 if r.random() < 0.1 else 1, 40 * G), G) for l in lo]
+            if r.random() < 0.12:
+                i = r.randrange(3)
+                hi[i] = lo[i]            # a flat axis: the box is a plane / a line (legal as long as another axis is open)
             if r.random() < 0.05:
                 lo, hi = hi, lo
             if all(a <= b for a, b in zip(lo, hi)) and any(a < b for a, b in zip(lo, hi)):
@@ -231,7 +236,11 @@ class Gen:
 # ------------------------------------------------------------------ correspondence
 def run_impl(lines: list[str]):
     """Execute a history on a fresh real builder; returns (completed op lines, records)."""
-    im = Impl()
+    dp = 5
+    if lines and lines[0].startswith("cfg dp="):      # harness-only line: decimal places of this builder
+        dp = int(lines[0].split("=")[1])
+        lines = lines[1:]
+    im = Impl(dp)
     out_lines, recs = [], []
     im.src_lines = []            # the harness-side line behind every executed line (same length as the result)
     for ln in lines:
@@ -289,7 +298,7 @@ def _close(a: str, b: str, tol: Fraction) -> bool:
     return True
 
 
-def diff(impl_rec: str, model_rec: str, keys, exact: bool = True) -> list[str]:
+def diff(impl_rec: str, model_rec: str, keys, exact: bool = True, dp: int = 5) -> list[str]:
     a, b = parse_record(impl_rec), parse_record(model_rec)
     bad = []
     for k in keys:
@@ -298,7 +307,7 @@ def diff(impl_rec: str, model_rec: str, keys, exact: bool = True) -> list[str]:
         if k == "res" and _close(a[k], b[k], Fraction(1, 10**9)):
             continue  # (res / f) * f in floats may differ from res by an ulp
         if not exact:
-            tol = Fraction(1, 10**5) / 2 + Fraction(1, 10**9) if k == "stmts" else Fraction(1, 10**8)
+            tol = Fraction(1, 10**dp) / 2 + Fraction(1, 10**9) if k == "stmts" else Fraction(1, 10**8)
             if _close(a.get(k, ""), b.get(k, ""), tol):
                 continue
         bad.append(k)
@@ -309,23 +318,34 @@ def correspond(R: core.Run, histories: list[list[str]], keys, exact: bool, label
     """Run every history on the implementation and the model, compare the projection `keys` step by step,
     evaluate `oracle(lines, impl_records, impl)` (returns list of (step, message, tag))."""
     done = []
+    dps = []
     for h in histories:
         lines, recs, im = run_impl(h)
         done.append((lines, recs))
+        dps.append(im.dp)
+        badout = [(i, r) for i, r in enumerate(recs) if "!BAD(" in r]
+        if badout:
+            i, r = badout[0]
+            R.fail({"history": ([f"cfg dp={im.dp}"] if im.dp != 5 else []) + lines[: i + 1]},
+                   f"`{lines[i]}` wrote a line that is not a sequence of address words: {parse_record(r)['stmts']}", tag="malformed-output", step=i)
+            continue
         if oracle:
             for step, msg, tag in oracle(lines, recs, im) or []:
                 R.fail({"history": lines[: step + 1]}, msg, tag=tag, step=step)
+    keep = [k for k, d in enumerate(done) if not any("!BAD(" in r for r in d[1])]
+    done = [done[k] for k in keep]
+    dps = [dps[k] for k in keep]
     model = run_model([l for l, _ in done])
-    for (lines, recs), mrecs in zip(done, model):
+    for (lines, recs), mrecs, dp in zip(done, model, dps):
         nt = nontrivial(lines, recs) if nontrivial else (sum(1 for r in recs if "stmts=-" not in r) >= 2)
         R.case({"history": lines, "last_record": recs[-1] if recs else ""}, nontrivial=nt)
         R.count(label)
         for ln, rec in zip(lines, recs):
             R.count("op:" + ln.split()[0], "out:" + rec.split(" ", 1)[0][4:])
         for i, (ir, mr) in enumerate(zip(recs, mrecs)):
-            bad = diff(ir, mr, keys, exact)
+            bad = diff(ir, mr, keys, exact and dp >= 5, dp)
             if bad:
-                R.disagree(f"builder[{','.join(bad)}]", {"history": lines[: i + 1]},
+                R.disagree(f"builder[{','.join(bad)}]", {"history": ([f"cfg dp={dp}"] if dp != 5 else []) + lines[: i + 1]},
                            {k: parse_record(ir).get(k) for k in bad}, {k: parse_record(mr).get(k) for k in bad}, step=i)
                 break
     return done
